@@ -119,6 +119,29 @@ def diamond_family():
     return out
 
 
+def triangle_family():
+    """a -> b, (a, b) -> d in both input orders; b plain / with own split; d plain / with own split / combining."""
+    out = []
+    for order in (("n0", "n1"), ("n1", "n0")):
+        for b_extra in (None, "B"):
+            for d_extra in (None, "C"):
+                for a_split in (leaf("x"), node_("*", [leaf("x"), leaf("y")])):
+                    two = a_split["op"] != "f"
+                    n0 = {"name": "n0", "x": src("wf", "A"), "y": src("wf", "B") if two else src("none"), "hassplit": True,
+                          "split": a_split, "comb": []}
+                    n1 = {"name": "n1", "x": src("node", "n0"), "y": src("wf", b_extra) if b_extra else src("none"),
+                          "hassplit": bool(b_extra), "split": leaf("y") if b_extra else DUMMY, "comb": []}
+                    if d_extra:
+                        continue_ = False
+                    n2 = {"name": "n2", "x": src("node", order[0]), "y": src("node", order[1]), "hassplit": False, "split": DUMMY, "comb": []}
+                    nodes = [n0, n1, n2]
+                    if d_extra:
+                        nodes.append({"name": "n3", "x": src("node", "n2"), "y": src("wf", d_extra), "hassplit": True,
+                                      "split": leaf("y"), "comb": []})
+                    out.append({"ins": INS, "nodes": nodes, "outs": [nodes[-1]["name"]], "family": "triangle"})
+    return out
+
+
 # ---------------- TLC evaluation ----------------
 def tlc_expected(ctx, wfs, tag="wf"):
     f = ctx.scratch / f"{tag}_cases.ndjson"
